@@ -70,6 +70,9 @@ RegexRule(h, text) ==
       [] h.rx = "any"       -> TRUE
       [] h.rx = "alt"       -> Contains(text, h.lit) \/ Contains(text, h.lit2)
       [] h.rx = "icontains" -> Contains(LowerSeq(text), LowerSeq(h.lit))
+      \* the literal written with blanks between its characters and a "# comment" behind it, extended pattern syntax:
+      \* blanks and the comment are not part of the expression
+      [] h.rx = "xcontains" -> Contains(text, h.lit)
       [] h.rx = "backref"   -> Contains(text, <<97, 97>>) \/ Contains(text, <<98, 98>>)       \* ([ab])\1
       [] h.rx = "group"     -> h.lit # <<>> /\ (EndsWith(text, h.lit) \/ EndsWith(text, h.lit \o <<10>>))   \* (lit)+$
 
